@@ -571,6 +571,10 @@ class DimensionalityEstimator(BaseEstimator):
         if build_predict:
             self._set_local_dim_func()
             self._set_log_density_func()
+        else:
+            # predictors built for an earlier latent state are outdated; they are rebuilt on access
+            self.local_dim_func = None
+            self.log_density_func = None
         return self.local_dim_x, self.log_density_x
 
     def fit(self, x=None, build_predict=True):
